@@ -5,7 +5,7 @@
    outages" and the effect on the servers are decided by the monitor on the fakes' ground truth. *)
 From Coq Require Import ZArith NArith Bool List.
 From Mysync Require Import Gtid.Interval Gtid.GtidSet Pure.Quorum Base.Prog Base.ProgFacts Base.Config
-  Procs.NodeOps Procs.ActiveNodes Procs.Switchover Procs.Manager Proofs.ManagerProofs.
+  Procs.NodeOps Procs.ActiveNodes Procs.Switchover Procs.Manager Proofs.ManagerProofs Proofs.GatesProofs.
 Import ListNotations.
 Open Scope Z_scope.
 
@@ -57,3 +57,21 @@ Theorem C09_many_masters_keep_mode : forall cfg env m tr m1,
   has_ev tr (fun e => ev_call e = FileWrite f_emerge) /\ ~ has_ev tr (fun e => ev_call e = DcsDelete PMaintenance).
 Proof. exact leave_maintenance_many_masters. Qed.
 Print Assumptions C09_many_masters_keep_mode.
+
+(* a process that runs stateManager while full maintenance is acknowledged (e.g. it was restarted and became the
+   manager) only READS - registry, servers, health records, master key, active list, maintenance record - and
+   goes to the paused state; it never reaches the repair tail.  Hypothesis: the master record is there (read
+   as a host, or the read failed).  The first version of this theorem needed "the read succeeded": with a FAILED
+   read getCurrentMaster re-learned and overwrote the master before the maintenance record was looked at - that
+   witness reproduced on the real code (C09-K3) and was repaired in /repo (b339185); a MISSING or unparsable
+   record is still re-learned, also during maintenance, which is why the hypothesis remains. *)
+Theorem C09_manager_iteration_is_frozen_when_acknowledged : forall cfg env m tr o,
+  runs (manager_gates cfg env m) tr o ->
+  (forall e, In e tr -> ev_call e = DcsGet PMaster ->
+     (exists h, ev_resp e = RVal (VHost h)) \/ (exists er, ev_resp e = RErr er /\ er <> ENotFound /\ er <> EMalformed)) ->
+  (forall e, In e tr -> ev_call e = DcsGet PMaintenance ->
+     exists mt, ev_resp e = RVal (VMaint mt) /\ mt_light mt = false /\ mt_paused mt = true) ->
+  only_reads tr /\ (forall c m', o <> Done (GTail c, m')) /\
+  (forall e, In e tr -> ev_call e = DcsGet PMaintenance -> exists m', o = Done (GNext NxMaintenance, m')).
+Proof. exact manager_frozen_when_acknowledged. Qed.
+Print Assumptions C09_manager_iteration_is_frozen_when_acknowledged.
